@@ -1068,6 +1068,13 @@ class Interp:
         return self.models.slice_(self, base, lo, hi, st, node)
 
     def seq_index(self, s, k):
+        from . import specs
+        if z3.is_app(s.z) and s.z.decl().name() in specs._MAPS:
+            elt_at, _ = specs._MAPS[s.z.decl().name()]
+            z = elt_at(self, s.z.arg(0), zi(k))
+            if s.elem == "int":
+                return mk_int(z)
+            return specs.vbytes_from_term(z3.simplify(z)) if s.elen is None else VBytes([Chunk(z3.simplify(z), s.elen)])
         z = s.z[zi(k)]
         if s.elem == "int":
             return mk_int(z)
